@@ -15,7 +15,7 @@ EXTRA = {"C05-A": ["C04"], "C05-B": ["C04", "C06"], "C04-B": ["C06"], "C08-A": [
 
 def run(name):
     d = f"{V}/seeded/{name}"
-    prop = name.split("-")[0]
+    prop = name[:3]
     wt = f"/tmp/wtm/{name}"
     subprocess.run(["rm", "-rf", wt])
     os.makedirs("/tmp/wtm", exist_ok=True)
